@@ -2,6 +2,7 @@ package rules
 
 import (
 	"fmt"
+	"go/ast"
 	"go/constant"
 	"go/token"
 	"go/types"
@@ -19,7 +20,7 @@ func init() {
 			"(R10.1) the shape of the tree depends on which binary operator is read: somewhere in the expression parser a branch separates '&&' from '||' (or an ordering comparison is made on a value derived from the operator token, as in a precedence table) outside the function that merely maps the token to the AST label -- a parser that treats the two alike builds the same shape for 'a || b && c' and 'a && b || c', so it cannot give '&&' the tighter binding; " +
 			"(R10.2) a '!' applies to one operand: the function that builds the negation node takes its child from the operand parser, or from the expression parser only for a parenthesised group (closing token ')'); " +
 			"(R10.3) parentheses override: a '(' recurses with ')' as the closing token and its result is kept as one operand, and the flattening pass merges a child into its parent only under an equality test of their two operators. " +
-			"(R10.4) the alternative spellings of a relation's type (T[], (A | B)[], SubjectSet<..>[], Array<..>) are parsed by sibling arms of one switch; every arm that builds the relation's types also accepts the optional ',' separator after it, or none does -- an arm that differs rejects a list the others accept. Not decided: that every documented spelling is accepted (T[] / Array<T>, dot / bracket access, optional annotations, quotes, comments, separators), that '&&' rather than '||' is the one that binds tighter, equality of truth tables over all expressions. These would need the parser to be run or modelled, which this family does not do.",
+			"(R10.4) alternatives of the grammar are parsed by sibling arms of a switch or if-chain (the four spellings of a relation's type; the 'related' and 'permits' forms of a traversal body): if one arm accepts an optional ',' after what it parses, every sibling arm that also goes on parsing accepts it -- an arm that differs rejects an input the others accept in the same position. Not decided: that every documented spelling is accepted (T[] / Array<T>, dot / bracket access, optional annotations, quotes, comments, separators), that '&&' rather than '||' is the one that binds tighter, equality of truth tables over all expressions. These would need the parser to be run or modelled, which this family does not do.",
 		Assumptions: []string{
 			"the expression parser is the set of functions of package schema reachable from the function that loops over the binary operator tokens",
 		},
@@ -347,129 +348,136 @@ func runC10(c *Ctx) {
 
 // ---- R10.4 sibling arms agree on the optional separator ------------------------------------------
 
-// r104: in the function that parses relation declarations, every arm that
-// appends to the relation's type list must, before the relation is stored,
-// pass a matcher built by optional(",") -- if any arm does. (Sibling
-// implementations of one grammar alternative must agree; Engler et al.)
+// r104: alternatives of the grammar are parsed by sibling arms of a switch (or
+// of an if/else-if chain). If one arm of a dispatch accepts an optional ','
+// (a matcher built by optional(",")) after what it parsed, every sibling arm
+// that also goes on parsing must accept it too; an arm that differs rejects an
+// input that the others accept in the same position. (Cross-checking sibling
+// implementations: Engler et al.) Decided on the typed syntax tree: arms are
+// case clauses or the branches of an if/else-if chain.
 func r104(c *Ctx) {
 	p, r := c.P, c.R
-	var fn *ssa.Function
-	for _, f := range p.KetoFuncs(schemaRel) {
-		if f.Parent() != nil {
-			continue
+	pkg := p.Pkg(schemaRel)
+	if pkg == nil {
+		r.Undecide("R10.4", "", "anchor package schema", "", "not loaded")
+		return
+	}
+	info := pkg.TypesInfo
+	isOptComma := func(n ast.Node) bool {
+		call, ok := n.(*ast.CallExpr)
+		if !ok || len(call.Args) == 0 {
+			return false
 		}
-		// the function that stores into namespace.Relations and calls optional(",")
-		stores, opt := false, false
-		core.Instrs(f, func(_ *ssa.BasicBlock, _ int, ins ssa.Instruction) {
-			if st, ok := ins.(*ssa.Store); ok {
-				if fa, ok := st.Addr.(*ssa.FieldAddr); ok {
-					if fv := fieldVarOf(fa); fv != nil && fv.Name() == "Relations" {
-						stores = true
+		id, ok := unparen(call.Fun).(*ast.Ident)
+		if !ok || id.Name != "optional" {
+			return false
+		}
+		if _, isFn := info.Uses[id].(*types.Func); !isFn {
+			return false
+		}
+		s, ok := core.ConstString(info, call.Args[0])
+		return ok && s == "," && len(call.Args) == 1
+	}
+	isMatch := func(n ast.Node) bool {
+		call, ok := n.(*ast.CallExpr)
+		if !ok {
+			return false
+		}
+		sel, ok := call.Fun.(*ast.SelectorExpr)
+		return ok && (sel.Sel.Name == "match" || sel.Sel.Name == "matchIf" || sel.Sel.Name == "matchPropertyAccess")
+	}
+	type armInfo struct {
+		pos             token.Pos
+		opt, parses, ok bool
+	}
+	judge := func(body []ast.Stmt, pos token.Pos) armInfo {
+		a := armInfo{pos: pos, ok: true}
+		for _, st := range body {
+			ast.Inspect(st, func(n ast.Node) bool {
+				switch n.(type) {
+				case *ast.FuncLit, *ast.SwitchStmt, *ast.TypeSwitchStmt:
+					return false // a nested dispatch is judged on its own
+				}
+				if isOptComma(n) {
+					a.opt = true
+				}
+				if isMatch(n) {
+					a.parses = true
+				}
+				return true
+			})
+		}
+		return a
+	}
+	nDispatch, nArms := 0, 0
+	report := func(fd *ast.FuncDecl, where token.Pos, arms []armInfo) {
+		var with, without []string
+		for _, a := range arms {
+			if !a.parses {
+				continue
+			}
+			if a.opt {
+				with = append(with, p.Pos(a.pos))
+			} else {
+				without = append(without, p.Pos(a.pos))
+			}
+		}
+		if len(with) == 0 {
+			return // no arm of this dispatch takes the separator: nothing to cross-check
+		}
+		nDispatch++
+		nArms += len(with) + len(without)
+		fname := schemaRel + "." + fd.Name.Name
+		if fd.Recv != nil && len(fd.Recv.List) > 0 {
+			fname = "(*" + schemaRel + ".parser)." + fd.Name.Name
+		}
+		r.Check(len(without) == 0, "R10.4", fname, "sibling arms agree on the optional ','", p.Pos(where),
+			fmt.Sprintf("all %d parsing arms of the dispatch accept the optional separator", len(with)),
+			fmt.Sprintf("%d arm(s) of this dispatch accept an optional ',' after what they parse (%s) but %d sibling arm(s) that also go on parsing do not (%s): the same position accepts a ',' for one spelling and rejects it for another", len(with), strings.Join(with, ", "), len(without), strings.Join(without, ", ")))
+	}
+	for _, f := range pkg.Syntax {
+		for _, d := range f.Decls {
+			fd, ok := d.(*ast.FuncDecl)
+			if !ok || fd.Body == nil {
+				continue
+			}
+			elseIf := map[*ast.IfStmt]bool{}
+			ast.Inspect(fd.Body, func(n ast.Node) bool {
+				switch x := n.(type) {
+				case *ast.SwitchStmt:
+					var arms []armInfo
+					for _, cc := range x.Body.List {
+						cl := cc.(*ast.CaseClause)
+						arms = append(arms, judge(cl.Body, cl.Pos()))
+					}
+					report(fd, x.Pos(), arms)
+				case *ast.IfStmt:
+					if elseIf[x] {
+						return true
+					}
+					var arms []armInfo
+					for cur := x; cur != nil; {
+						arms = append(arms, judge(cur.Body.List, cur.Body.Pos()))
+						switch el := cur.Else.(type) {
+						case *ast.IfStmt:
+							elseIf[el] = true
+							cur = el
+						case *ast.BlockStmt:
+							arms = append(arms, judge(el.List, el.Pos()))
+							cur = nil
+						default:
+							cur = nil
+						}
+					}
+					if len(arms) >= 2 {
+						report(fd, x.Pos(), arms)
 					}
 				}
-			}
-			if isOptionalComma(ins) {
-				opt = true
-			}
-		})
-		if stores && opt {
-			fn = f
-		}
-	}
-	if fn == nil {
-		r.Discharge("R10.4", "", "relation type arms", "", "no function both stores relations and accepts an optional separator (nothing to cross-check)")
-		return
-	}
-	// join: the block that stores Relations
-	var join *ssa.BasicBlock
-	core.Instrs(fn, func(b *ssa.BasicBlock, _ int, ins ssa.Instruction) {
-		if st, ok := ins.(*ssa.Store); ok {
-			if fa, ok := st.Addr.(*ssa.FieldAddr); ok {
-				if fv := fieldVarOf(fa); fv != nil && fv.Name() == "Relations" {
-					join = b
-				}
-			}
-		}
-	})
-	// arms: blocks that append to a []ast.RelationType
-	type arm struct {
-		b   *ssa.BasicBlock
-		pos token.Pos
-	}
-	var arms []arm
-	core.Instrs(fn, func(b *ssa.BasicBlock, _ int, ins ssa.Instruction) {
-		call, ok := ins.(*ssa.Call)
-		if !ok {
-			return
-		}
-		bi, ok := call.Call.Value.(*ssa.Builtin)
-		if !ok || bi.Name() != "append" {
-			return
-		}
-		if sl, ok := call.Type().Underlying().(*types.Slice); ok && core.IsNamed(sl.Elem(), astPkg, "RelationType") {
-			arms = append(arms, arm{b, call.Pos()})
-		}
-	})
-	var with, without []string
-	for _, a := range arms {
-		// from the arm to the join: is an optional(",") call passed on every path?
-		seen := map[*ssa.BasicBlock]bool{}
-		miss := false
-		var walk func(b *ssa.BasicBlock, start bool)
-		walk = func(b *ssa.BasicBlock, start bool) {
-			if seen[b] || miss {
-				return
-			}
-			seen[b] = true
-			for _, ins := range b.Instrs {
-				if isOptionalComma(ins) {
-					return
-				}
-			}
-			if b == join {
-				miss = true
-				return
-			}
-			for _, sc := range b.Succs {
-				walk(sc, false)
-			}
-		}
-		walk(a.b, true)
-		if miss {
-			without = append(without, p.Pos(a.pos))
-		} else {
-			with = append(with, p.Pos(a.pos))
-		}
-	}
-	if len(arms) < 3 {
-		r.Undecide("R10.4", core.FuncName(fn), "relation type arms", p.Pos(fn.Pos()), fmt.Sprintf("%d arms that build the relation's types found (floor 3)", len(arms)))
-		return
-	}
-	r.Check(len(with) == 0 || len(without) == 0, "R10.4", core.FuncName(fn), "relation type arms agree on the optional ','", p.Pos(fn.Pos()),
-		fmt.Sprintf("all %d arms accept the optional separator after the type", len(with)),
-		fmt.Sprintf("%d spelling(s) of a relation type accept an optional ',' after the type (%s) but %d do not (%s): 'a: Array<T>, b: U[]' is rejected where 'a: T[], b: U[]' is accepted", len(with), strings.Join(with, ", "), len(without), strings.Join(without, ", ")))
-}
-
-// isOptionalComma: a call optional(",") (a matcher that accepts a missing comma).
-func isOptionalComma(ins ssa.Instruction) bool {
-	call, ok := ins.(*ssa.Call)
-	if !ok {
-		return false
-	}
-	sc := call.Call.StaticCallee()
-	if sc == nil || sc.Name() != "optional" {
-		return false
-	}
-	for _, a := range call.Call.Args {
-		for _, el := range variadicElems(a) {
-			v := el
-			if mi, ok := el.(*ssa.MakeInterface); ok {
-				v = mi.X
-			}
-			if k, ok := v.(*ssa.Const); ok && k.Value != nil && k.Value.ExactString() == `","` {
 				return true
-			}
+			})
 		}
 	}
-	return false
+	if nDispatch == 0 {
+		r.Discharge("R10.4", "", "sibling arms agree on the optional ','", "", "no dispatch of the parser accepts an optional separator in some arm (nothing to cross-check)")
+	}
 }
